@@ -154,6 +154,9 @@ func (o Op) String() string {
 		for _, p := range o.Par {
 			parts = append(parts, p.String())
 		}
+		if o.O == "held" {
+			return "par worker-held { " + strings.Join(parts, " ; ") + " }"
+		}
 		return "par { " + strings.Join(parts, " ; ") + " }"
 	case "sleep":
 		return fmt.Sprintf("sleep %dms", o.N)
